@@ -1,4 +1,13 @@
-/- dsmodel_density: model driver stub (filled in when the family is built). -/
-def main (_args : List String) : IO UInt32 := do
-  IO.eprintln "dsmodel_density: not built yet"
-  return 2
+/- dsmodel_density: `density` = update/merge/query histories of density sketches (C20). -/
+import DSModel.Density.Driver
+import DSModel.DriverLoop
+import DSGen.Density
+open DS
+
+def main (args : List String) : IO UInt32 := do
+  match args with
+  | ["density"] =>
+    let cfg : Density.Cfg := { mergeSkipOnN := DSGen.density_MERGE_SKIPS_ON_N, queryChecksDim := DSGen.density_QUERY_CHECKS_DIM,
+                               weight64 := DSGen.density_EST_WEIGHT_64 }
+    runDriver ({ minK := DSGen.density_MIN_K, cfg := cfg } : Density.DState) Density.stepLine
+  | _ => IO.eprintln "usage: dsmodel_density density"; return 2
